@@ -26,6 +26,9 @@ structure Msg where
   tag : Nat
 deriving DecidableEq, Repr
 
+/-- the harness encodes `stream * 256 + function` in the tag: a primary message has an odd function -/
+def Msg.primary (m : Msg) : Bool := m.tag % 2 == 1
+
 inductive Pc
   | idle        -- before `get_next_system_counter`
   | mid         -- only when the allocator is not atomic: counter written, value not yet read back
@@ -48,10 +51,13 @@ structure Caller where
 deriving Repr
 
 /-- one dispatcher thread: `stopped` = its per-start stop token is set (patched code only);
-`cur = some (m, started)`: it has taken `m` from the dispatch queue; `started` = the application handler runs -/
+`cur = some (m, started)`: it has taken `m` from the dispatch queue; `started` = the application handler runs;
+`routing`: between the two statements of the routing branch -/
 structure Disp where
   stopped : Bool := false
   cur : Option (Msg × Bool) := none
+  /-- the test `message.header.system in self._response_queues` was true; `self._response_queues[...].put_nowait(message)` is still to run -/
+  routing : Bool := false
 deriving DecidableEq, Repr
 
 /-- can still take part: not stopped, or still holding a message -/
@@ -68,6 +74,9 @@ structure Cfg where
   patched : Bool
   /-- initial counter, `random.randint(0, 2**32 - 1)` -/
   c0 : Int
+  /-- only replies (even function) are looked up in `_response_queues`; a primary always goes to the application
+  (proposal C06-primary-system-bytes).  `false` = the code as it is: routing by system bytes alone -/
+  replyOnly : Bool := false
 
 structure State where
   counter : Int
@@ -89,6 +98,8 @@ structure State where
   popped : List Msg
   /-- ghost: messages whose routing decision was taken, in that order; `true` = put to a response queue -/
   handled : List (Msg × Bool)
+  /-- ghost: messages for which `_response_queues[system]` raised `KeyError` (entry deleted between test and put): swallowed by `_dispatch_block` -/
+  lost : List Msg
   /-- ghost: number of `start()` calls -/
   ups : Nat
   /-- ghost: at some point more than one dispatcher thread was active -/
@@ -98,7 +109,7 @@ inductive Step
   | alloc (c : Nat) | allocRmw (c : Nat) | allocRet (c : Nat)
   | register (c : Nat) | send (c : Nat) | sendFail (c : Nat) | fire (c : Nat)
   | recv (c : Nat) | timeout (c : Nat) | unregister (c : Nat)
-  | rxPart (n : Nat) | rx (m : Msg) | pop (d : Nat) | handle (d : Nat) | finish (d : Nat)
+  | rxPart (n : Nat) | rx (m : Msg) | pop (d : Nat) | handle (d : Nat) | put (d : Nat) | finish (d : Nat)
   | linkDown | linkUp
 deriving DecidableEq, Repr
 
@@ -128,6 +139,7 @@ def init (cfg : Cfg) : State where
   arrived := []
   popped := []
   handled := []
+  lost := []
   ups := 0
   everTwo := false
 
@@ -214,15 +226,31 @@ def step0 (cfg : Cfg) (s : State) : Step → Option State
       else none
     | _, _ => none
   | .handle d =>
+    -- `if message.header.system in self._response_queues:` … `else: self.events.fire("message_received", …)`
     match s.disp[d]? with
     | some dd =>
       match dd.cur with
       | some (m, false) =>
-        match s.reg m.sys with
-        | some c =>
-          some { s with q := upd s.q c (s.q c ++ [m]), handled := s.handled ++ [(m, true)], disp := s.disp.set d { dd with cur := none } }
+        if dd.routing then none else
+        match (if cfg.replyOnly && m.primary then none else s.reg m.sys) with
+        | some _ => some { s with disp := s.disp.set d { dd with routing := true } }
         | none =>
           some { s with delivered := s.delivered ++ [m], handled := s.handled ++ [(m, false)], disp := s.disp.set d { dd with cur := some (m, true) } }
+      | _ => none
+    | none => none
+  | .put d =>
+    -- `self._response_queues[message.header.system].put_nowait(message)`; a `KeyError` is swallowed by `_dispatch_block`
+    match s.disp[d]? with
+    | some dd =>
+      match dd.cur with
+      | some (m, false) =>
+        if dd.routing then
+          match s.reg m.sys with
+          | some c =>
+            some { s with q := upd s.q c (s.q c ++ [m]), handled := s.handled ++ [(m, true)], disp := s.disp.set d { dd with cur := none, routing := false } }
+          | none =>
+            some { s with lost := s.lost ++ [m], handled := s.handled ++ [(m, true)], disp := s.disp.set d { dd with cur := none, routing := false } }
+        else none
       | _ => none
     | none => none
   | .finish d =>
